@@ -52,6 +52,7 @@ structure Decl where
   msl : Nat
   vars : List Var
   inputs : List (Nat × Period × Val)
+  roles : List Nat := []       -- role of each person in its group (missing entries: role 0)
 deriving Repr, Inhabited
 
 def Decl.size (d : Decl) (entity : Nat) : Nat := if entity = 0 then d.nP else d.nG
@@ -94,6 +95,18 @@ def formulaInForce (v : Var) (startOrd : Int) : Option DExpr :=
 
 def vecAdd (a b : Val) : Val := List.zipWith (· + ·) a b
 
+/-- sum of `x` over the members of group `g` that hold role `r` (`GroupPopulation.sum(x, role)`);
+    it does not depend on the order in which persons are stored -/
+def roleSum (d : Decl) (r : Nat) (x : Val) (g : Nat) : Int :=
+  (((List.range d.mem.length).filter (fun i => d.mem.getD i 0 = g ∧ d.roles.getD i 0 = r)).map
+    (fun i => x.getD i 0)).foldl (· + ·) 0
+
+/-- role-based operations (operation codes 10–49, role `r = o % 10`): every one is a function of
+    the SET of role holders of each group.  The order-dependent operations of `GroupPopulation`
+    (`value_nth_person`, `first_person`, `get_rank`) are deliberately NOT in the language: their
+    result is defined by storage order. -/
+def isRoleOp (o : Nat) : Bool := decide (10 ≤ o ∧ o < 50)
+
 /-- unary operations on vectors -/
 def f1 (d : Decl) (o : Nat) (x : Val) : Val :=
   if o = 0 then x.map (fun a => -a)
@@ -102,6 +115,15 @@ def f1 (d : Decl) (o : Nat) (x : Val) : Val :=
   else if o = 2 then          -- projection of a group vector onto persons
     d.mem.map (fun g => x.getD g 0)
   else if o = 3 then x.map (fun a => if a ≠ 0 then 1 else 0)
+  else if 10 ≤ o ∧ o < 20 then    -- `sum(x, role=r)`
+    (List.range d.nG).map (roleSum d (o - 10) x)
+  else if 20 ≤ o ∧ o < 30 then    -- `value_from_person(x, role=r)`, `r` a unique role: the holder's
+                                   -- value, 0 (the default) for a group without holder
+    (List.range d.nG).map (roleSum d (o - 20) x)
+  else if 30 ≤ o ∧ o < 40 then    -- `nb_persons(role=r)` (the operand's values are not used)
+    (List.range d.nG).map (roleSum d (o - 30) (List.replicate d.mem.length 1))
+  else if 40 ≤ o ∧ o < 50 then    -- `any(x, role=r)` = `sum(x, role=r) > 0`
+    (List.range d.nG).map (fun g => if roleSum d (o - 40) x g > 0 then 1 else 0)
   else if 100 ≤ o then x.map (fun a => a * ((o : Int) - 150))
   else x
 
@@ -153,15 +175,15 @@ def elabRead (d : Decl) (w : Nat) (q : Except String Period) (add : Bool) : Expr
       | .error _ => .bad
 
 /-- elaboration of a formula expression; `ent` is the entity the sub-expression lives on
-    (`op1 1` sums a person-level operand per group, `op1 2` projects a group-level operand onto
-    persons) -/
+    (`op1 1` and the role operations `op1 10..49` turn a person-level operand into a group
+    vector, `op1 2` projects a group-level operand onto persons) -/
 def elabExpr (d : Decl) (ent : Nat) (p : Period) : DExpr → Expr Period
   | .const k => .const (List.replicate (d.size ent) k)
   | .var w pt add =>
     match d.vars[w]? with
     | none => .bad
     | some wv => if wv.entity = ent then elabRead d w (applyPT p pt) add else .bad
-  | .op1 o a => .op1 o (elabExpr d (if o = 1 then 0 else if o = 2 then 1 else ent) p a)
+  | .op1 o a => .op1 o (elabExpr d (if o = 1 ∨ isRoleOp o = true then 0 else if o = 2 then 1 else ent) p a)
   | .op2 o a b => .op2 o (elabExpr d ent p a) (elabExpr d ent p b)
   | .fail id a => .fail id (elabExpr d ent p a)
 
